@@ -182,6 +182,7 @@ def check(env, rep, tier):
             rep.floor("C05.4", "named values of " + en, len(names), floor)
             for nm in names:
                 rep.ob("C05.4", "registry|%s" % nm, nm in reg, "%s::%s has no registry entry" % (en, nm))
+        check_code_text_split(prog, rep)
         # ---- C05.6 is_error
         b = find_body(prog, "header::ResponseType::is_error")
         if b is None:
@@ -202,3 +203,67 @@ def check(env, rep, tier):
                        "ResponseType::%s (code byte 0x%02X): is_error() should be %s, analysis gives %s" % (nm, num, bool(want), sorted(str(x) for x in vals)),
                        {"file": b["span"]["f"], "line": b["span"]["l"], "fn": b["path"]},
                        sample={"rule": "C05.6", "status": nm, "byte": num, "is_error": sorted(str(x) for x in vals)})
+
+
+def check_code_text_split(prog, rep):
+    """C05.7: Display splits the code byte as class = bits 7:5, detail = bits 4:0;
+    set_code composes class << 5 | detail; the two are inverse"""
+    import bitprov
+    from absdom import State, IntV, RefV, StructV
+    d = None
+    for b in prog.bodies.values():
+        if b.get("impl_trait") == "core::fmt::Display" and b.get("name") == "fmt" and prog.types[b["impl_self"]]["s"] == "header::MessageClass":
+            d = b
+    if d is None:
+        rep.missing("C05.7", "Display for MessageClass")
+    else:
+        I = new_interp(prog)
+        seen = []
+
+        def hook(I_, s, call, cbody):
+            if call.path == "core::fmt::rt::Argument::<'_>::new_display" and call.ctx.depth == 0:
+                a = call.args[0]
+                v = I_.read(s, a.place) if isinstance(a, RefV) else a
+                seen.append((s.copy(), v))
+        I.call_hooks.append(hook)
+        I.K_ret = 1
+        I, res = run(prog, d, I=I)
+        pats = []
+        for s, v in seen:
+            bits = bitprov.resolve_bits(I, s, v, 8) if isinstance(v, IntV) else None
+            if bits:
+                syms = set(b[1] for b in bits if isinstance(b, tuple))
+                pats.append((tuple((b[2] if isinstance(b, tuple) else b) for b in bits), len(syms)))
+        want = {((5, 6, 7, 0, 0, 0, 0, 0), 1), ((0, 1, 2, 3, 4, 0, 0, 0), 1)}
+        rep.ob("C05.7", "display-split", set(pats) == want,
+               "Display for MessageClass does not print class = code bits 7:5 and detail = code bits 4:0 (found bit patterns %s)" % pats,
+               {"file": d["span"]["f"], "line": d["span"]["l"], "fn": d["path"]}, sample={"rule": "C05.7", "patterns": [list(p[0]) for p in pats]})
+    sc = find_body(prog, "header::Header::set_code")
+    if sc is None:
+        rep.missing("C05.7", "Header::set_code")
+    else:
+        I = new_interp(prog)
+        I.no_join_bodies.add(sc["id"])
+        conv = find_impl_fn(prog, "core::convert::From", "header::MessageClass", "u8", "from")
+        seen = []
+
+        def hook2(I_, s, call, cbody):
+            if cbody is not None and conv is not None and cbody["id"] == conv["id"] and call.ctx.depth == 0:
+                seen.append((s.copy(), call.args[0]))
+        I.call_hooks.append(hook2)
+        I, res = run(prog, sc, I=I)
+        ok = bool(seen)
+        for s, v in seen:
+            bits = bitprov.resolve_bits(I, s, v, 8) if isinstance(v, IntV) else None
+            if not bits:
+                ok = False
+                continue
+            lo_syms = set(b[1] for b in bits[:5] if isinstance(b, tuple))
+            hi_syms = set(b[1] for b in bits[5:] if isinstance(b, tuple))
+            if len(lo_syms) != 1 or len(hi_syms) != 1 or lo_syms == hi_syms:
+                ok = False
+                continue
+            if [b[2] for b in bits[:5]] != [0, 1, 2, 3, 4] or [b[2] for b in bits[5:]] != [0, 1, 2]:
+                ok = False
+        rep.ob("C05.7", "set_code-compose", ok, "Header::set_code does not store class << 5 | detail with class < 8 and detail < 32",
+               {"file": sc["span"]["f"], "line": sc["span"]["l"], "fn": sc["path"]})
